@@ -160,6 +160,7 @@ STRUCTS = {
     "e": [(3,)],
     "f": [(2, 3), (3,), (1, 2), ()],
     "h": [(1, 2, 2), (2, 1, 3)],
+    "g": [(2,), (), (1, 3), (2, 2), (3,)],
 }
 
 
@@ -337,7 +338,9 @@ def jsonable(x):
         if a.dtype.kind == "c":
             return {"dtype": str(a.dtype), "shape": list(a.shape), "re": a.real.ravel().tolist(), "im": a.imag.ravel().tolist()}
         return {"dtype": str(a.dtype), "shape": list(a.shape), "v": a.ravel().tolist()}
-    if isinstance(x, (tuple, list)):
+    if isinstance(x, tuple):
+        return {"tuple": [jsonable(v) for v in x]}
+    if isinstance(x, list):
         return [jsonable(v) for v in x]
     if isinstance(x, type) and issubclass(x, np.generic):
         return {"npdtype": np.dtype(x).name}
@@ -361,8 +364,10 @@ def unjson(env, x):
         return complex(*x["complex"])
     if isinstance(x, dict) and "npdtype" in x:
         return np.dtype(x["npdtype"]).type
+    if isinstance(x, dict) and "tuple" in x:
+        return tuple(unjson(env, v) for v in x["tuple"])
     if isinstance(x, list):
-        return tuple(unjson(env, v) for v in x)
+        return [unjson(env, v) for v in x]
     return x
 
 
@@ -424,7 +429,7 @@ def run_call(env, ctx, model, section, kind, fn_id, raw_fn, snp_fn, args, kwargs
     ctx.count(f"blocks={nb}")
     okk = compare(env, m, impl, ev)
     if not okk:
-        case = {"section": section, "kind": kind, "fn": fn_id, "tag": tag, "args": jsonable(args), "kwargs": jsonable(kwargs), "key": key}
+        case = {"section": section, "kind": kind, "fn": fn_id, "tag": tag, "args": [jsonable(a) for a in args], "kwargs": {k: jsonable(v) for k, v in kwargs.items()}, "key": key}
         ctx.disagree(f"block.{section}", case, show_impl(impl), show(env, m, ev), oracle=make_oracle(env), known_id=known_id)
     return okk
 
@@ -606,7 +611,7 @@ def section_names(env, ctx, model):
     todo = [("jnp:" + n, n, "math") for n in dict.fromkeys(t["mathematical_functions"])] + [("jsp:" + n, n, "special") for n in t["special_functions"]]
     nopattern = []
     structs_valid = ["a", "b", "c", "d", "e", "h"]
-    extra_structs = ["f"] if ctx.thorough else []
+    extra_structs = ["f", "g"] if ctx.thorough else []
     dtypes = [None, np.float32] if ctx.thorough else [None]
     for fn_id, name, grp in todo:
         if name in SKIP_NAMES:
@@ -637,7 +642,7 @@ def section_names(env, ctx, model):
         ctx.count(f"names:family={'special' if name in SPECIAL else ''.join(str(x) for x in tmpl)}")
         fam_tag = "".join(str(x) for x in tmpl)
         for dtp in dtypes:
-            for stx in [st] + extra_structs:
+            for stx in [st] + (extra_structs if ctx.thorough else ([["f", "g"][int(rng.integers(0, 2))]] if (st in ("a", "b") and rng.random() < 0.5) else [])):
                 args = instantiate(env, rng, tmpl, stx, dtp)
                 for tag, a, k in passing_variants(raw, args):
                     k = dict(k, **kwt)
@@ -680,7 +685,7 @@ def section_reductions(env, ctx, model):
         fn_id = "jnp:" + name
         raw, snp_fn = env.resolve(fn_id), snp_of(env, fn_id)
         p0 = list(inspect.signature(raw).parameters)[0]
-        for st in (["a", "b", "c", "e", "f"] if ctx.thorough else ["a", "c"]):
+        for st in (["a", "b", "c", "e", "f", "g"] if ctx.thorough else ["a", "g"]):
             for kd in ("x", "i"):
                 x = gen_block(env, rng, st, kd)
                 cases = [
@@ -734,7 +739,12 @@ def section_reductions(env, ctx, model):
             ("prod", lambda: jnp.prod(flat)),
         ]:
             got = model.call("reduce_num", kind=kind, blocks=wire)
-            r = ref()
+            try:
+                r = ref()
+            except Exception as exc:  # noqa: BLE001
+                ctx.disagree("block.reduce_num", {"section": "numeric", "kind": kind, "blocks": [b.tolist() for b in blocks]}, {"err": common.err_kind(exc)}, "value",
+                             oracle=lambda c, kind=kind, exc=exc: {"reduction": kind, "blocks": c["blocks"], "raised": repr(exc)[:200]})
+                continue
             ctx.case({"section": "numeric", "kind": kind, "blocks": [list(b.shape) for b in blocks]}, ("numeric", kind, it) if nb >= 2 else None)
             ctx.count("numeric:cases")
 
@@ -748,7 +758,13 @@ def section_reductions(env, ctx, model):
                 return common.b2f(v)
 
             full, fold = conv(got["full"]), conv(got["fold"])
-            rr = None if r is None else (int(r) if kind == "count" else bool(r) if kind in ("any", "all") else float(r))
+            try:
+                rr = None if r is None else (int(r) if kind == "count" else bool(r) if kind in ("any", "all") else float(r))
+            except Exception:  # noqa: BLE001  (the reduction did not return a scalar at all)
+                ctx.disagree("block.reduce_num", {"section": "numeric", "kind": kind, "blocks": [b.tolist() for b in blocks]}, be.describe(r),
+                             {"full": conv(got["full"]), "fold": conv(got["fold"])},
+                             oracle=lambda c, r=r, kind=kind: {"reduction": kind, "blocks": c["blocks"], "scico_result": be.describe(r), "expected": "a scalar (reduction of the concatenation)"})
+                continue
             good = (full is None and fold is None and rr is None) if (rr is None or full is None) else (
                 (full == rr and fold == rr) if kind in ("count", "any", "all") else (common.close(full, rr, k=flat.size) and common.close(fold, rr, k=flat.size)))
             if not good:
@@ -833,7 +849,7 @@ def section_operators(env, ctx, model):
     # unary
     for name in t["unary_ops"]:
         for kd in ("x", "i", "c", "b"):
-            for st in (["a", "c"] if not ctx.thorough else ["a", "b", "c", "e", "f"]):
+            for st in (["a", "f", "g"] if not ctx.thorough else ["a", "b", "c", "e", "f", "g"]):
                 x = gen_block(env, rng, st, kd)
                 atoms = {f"s#{i}": x.arrays[i] for i in range(len(x))}
                 ev = Evaluator(atoms, env.resolve)
@@ -852,7 +868,7 @@ def section_operators(env, ctx, model):
         reflected = name.startswith("__r") and name not in ("__rshift__",)
         kinds = ("x", "i") if not is_mm else ("x",)
         for kd in kinds:
-            st = "b" if is_mm else ("a" if rng.random() < 0.5 else "f")
+            st = "b" if is_mm else ["a", "f", "g"][int(rng.integers(0, 3))]
             x = gen_block(env, rng, st, kd)
             if kd == "i" and "pow" in name:
                 x = BA([jnp.abs(b) % 3 + 1 for b in x.arrays])
@@ -920,7 +936,7 @@ METHOD_SKIP = {"delete", "unsafe_buffer_pointer", "addressable_data", "to_device
 def section_methods(env, ctx, model):
     rng = ctx.rng
     B = env._blockarray
-    for st in (["b", "a"] if not ctx.thorough else ["a", "b", "c", "d", "e", "f"]):
+    for st in (["b", "g"] if not ctx.thorough else ["a", "b", "c", "d", "e", "f", "g"]):
         for kd in ("x", "c") if ctx.thorough else ("x",):
             x = gen_block(env, rng, st, kd)
             n = len(x)
@@ -980,7 +996,7 @@ def section_wrappers(env, ctx, model):
     env.py["rec:wrapped"] = env._wrappers.map_func_over_blocks(rec)
     n_cases = ctx.n(150, 1500)
     for it in range(n_cases):
-        n0 = int(rng.integers(1, 4))
+        n0 = int(rng.integers(1, 6))
         npos, nkw = int(rng.integers(0, 4)), int(rng.integers(0, 4))
 
         def pickv():
@@ -1003,7 +1019,7 @@ def section_wrappers(env, ctx, model):
         nbm = model.call("numblocks", args=jargs, kwargs=jkw)
         nbi = env._wrappers._num_blocks_in_args(*args, **kwargs)
         if nbm != nbi:
-            ctx.disagree("block.numblocks", {"section": "wrapper", "args": jsonable(args), "kwargs": jsonable(kwargs)}, nbi, nbm)
+            ctx.disagree("block.numblocks", {"section": "wrapper", "args": [jsonable(a) for a in args], "kwargs": {k: jsonable(v) for k, v in kwargs.items()}}, nbi, nbm)
 
 
 def section_pytree(env, ctx, model):
@@ -1091,7 +1107,19 @@ def correspond(ctx, model):
     for sec in (run_corpus, section_names, section_reductions, section_creation, section_operators, section_methods,
                 section_wrappers, section_pytree):
         t0 = time.time()
-        sec(env, ctx, model)
+        try:
+            sec(env, ctx, model)
+        except (common.Infra, ModelErr):
+            raise
+        except Exception as e:  # noqa: BLE001
+            # an exception escaping from the code under test is its failure, not the harness's
+            import traceback
+
+            frames = [f for f in traceback.extract_tb(e.__traceback__) if str(common.REPO) in f.filename]
+            if not frames:
+                raise
+            ctx.disagree("%s.%s" % ("block", sec.__name__), {"section": sec.__name__, "exception": repr(e)[:300], "raised_in": f"{frames[-1].filename}:{frames[-1].lineno}"},
+                         "raised", "no exception")
         timing[sec.__name__] = round(time.time() - t0, 1)
     ctx.extra["section_wall_s"] = timing
 
@@ -1198,7 +1226,7 @@ def search(ctx, model, why):
             args = instantiate(env, rng, tmpl, st)
             if not per_block_ok(env, raw, args, kwt):
                 continue
-            case = {"section": "search", "kind": "map", "fn": fn_id, "args": jsonable(args), "kwargs": jsonable(kwt)}
+            case = {"section": "search", "kind": "map", "fn": fn_id, "args": [jsonable(a) for a in args], "kwargs": {k: jsonable(v) for k, v in kwt.items()}}
             r = oracle(case)
             if r is not None:
                 return r
